@@ -8,7 +8,7 @@
   assignment is then always `Want` over `Want`; in particular a build is never appended to the
   ready queue twice.  Joint induction on the fuel of the four mutually recursive functions.
 -/
-import N2V.Lemmas.SchedStep
+import N2V.Lemmas.SchedTrace
 import N2V.Lemmas.SchedWant
 namespace N2V.Sched
 
@@ -21,13 +21,14 @@ structure WRel (g : Graph) (par : Nat) (s s' : S) : Prop where
   inv : Inv g par s'
   frame : ∀ b, s.st b ≠ .unknown → s'.st b = s.st b
   mono : ∀ b, s.st b = .unknown → s'.st b = .unknown ∨ s'.st b = .want ∨ s'.st b = .ready
+  tinv : ∀ shape, TInv g par shape s → TInv g par shape s'
 
 theorem WRel.refl {g : Graph} {par : Nat} {s : S} (inv : Inv g par s) : WRel g par s s :=
-  ⟨inv, fun _ _ => rfl, fun _ h => Or.inl h⟩
+  ⟨inv, fun _ _ => rfl, fun _ h => Or.inl h, fun _ t => t⟩
 
 theorem WRel.trans {g : Graph} {par : Nat} {a b c : S} (h1 : WRel g par a b) (h2 : WRel g par b c) :
     WRel g par a c := by
-  refine ⟨h2.inv, ?_, ?_⟩
+  refine ⟨h2.inv, ?_, ?_, fun sh t => h2.tinv sh (h1.tinv sh t)⟩
   · intro x hx
     have := h1.frame x hx
     rw [h2.frame x (by rw [this]; exact hx), this]
@@ -80,7 +81,12 @@ theorem set_want_inv {g : Graph} {par : Nat} {s s' : S} {id : Nat} {new : St}
       · exact h))
   have hlim := set_limits_same inv h hid (runDelta_zero hp1.2.2.2.2 hn1.2)
   obtain ⟨_, _, -, -, hst, -⟩ := set_spec h
-  refine ⟨{ hcore with running := hlim.1, parBound := hlim.2.1, depthBound := hlim.2.2 }, ?_, ?_⟩
+  have hlegal : legal (s.st id) new = true := by
+    rcases hprev with h | ⟨h, h2⟩
+    · rw [h]; rcases hnew with h' | h' <;> rw [h'] <;> rfl
+    · rw [h, h2]; rfl
+  refine ⟨{ hcore with running := hlim.1, parBound := hlim.2.1, depthBound := hlim.2.2 }, ?_, ?_,
+          fun sh t => set_tinv t hcore.exact h hid hlegal (fun e => absurd e hn1.2)⟩
   · intro b hb
     rw [hst]
     by_cases e : b = id
